@@ -13,6 +13,18 @@ CHECKS = {
             "Every frame length 0..255 x boundary device ids enumerated in both directions plus seeded random frames/ids/instants and "
             "LAN.send on a simulated V2 connection; held-on-observed, not a proof.",
             "Trusts mv/ref/v2.py (independent V2 implementation) and the AES block primitive (cross-checked at setup).", "DESIGN.md section 2 C02"),
+    "C03": ("fault_enumeration", "fault enumeration with an outcome-class runtime oracle on the real decoder (all bit flips, truncations, byte substitutions)",
+            "Every single-bit flip and every truncation of authentic packets for every frame length 0..255, byte substitutions (all 255 values "
+            "at every position in the thorough tier), random multi-byte corruptions, and a sample through LAN.send; the only accepted outcome is ProtocolError.",
+            "Trusts mv/ref/v2.py to build authentic packets and to recognise the (never observed) corruption that is still authentic.", "DESIGN.md section 2 C03"),
+    "C04": ("exploration", "delivered-prefix runtime oracle on the real V3 protocol object under enumerated and random TCP segmentations; virtual-time promptness check through LAN.send",
+            "All segmentations with <=2 (quick) / <=3 (thorough) cut points of ~90 generated streams of 1..4 packets incl. marker-bearing payloads and garbage prefixes, "
+            "random many-cut and byte-by-byte segmentations, plus full-stack runs deciding promptness on virtual time.",
+            "Trusts mv/ref/v3.py framing and the in-memory transport's copy of asyncio's data_received semantics.", "DESIGN.md section 2 C04"),
+    "C05": ("fault_enumeration", "differential runtime monitor vs independent V3 codec + exhaustive single-bit tamper enumeration (direct and through LAN.send)",
+            "Payload lengths 0..300 in both directions, counters 0..4095 (thorough), random keys, wire round trips on an authenticated simulated session, "
+            "and every single-bit flip of a response for every padding residue.",
+            "Trusts mv/ref/v3.py; marker/size bit flips at the LAN.send level may end in TimeoutError (framing never completes).", "DESIGN.md section 2 C05"),
 }
 
 NOT_YET = "check not built yet in this round (planned in DESIGN.md section 2)"
